@@ -954,14 +954,14 @@ impl ElementRaw {
         // cache all newly added reference origins under move_element
         for (old_ref, ref_element) in original_refs {
             // if the reference points to a known old path, then update it to use the new path instead
+            let mut refstr = old_ref.clone();
             if original_paths.contains_key(&old_ref) {
-                let mut refstr = old_ref.clone();
                 if let Some(suffix) = old_ref.strip_prefix(&src_path_prefix) {
                     refstr = format!("{dest_path}{suffix}");
                     ref_element.0.write().set_character_data(refstr.clone(), version)?;
                 }
-                model.add_reference_origin(&refstr, ref_element.downgrade());
             }
+            model.add_reference_origin(&refstr, ref_element.downgrade());
         }
 
         // insert move_element
